@@ -770,9 +770,48 @@ def _run_stacked_evaluator(c, m, spec, case):
         c.note(f"stacked_jacob:rejected:{type(exc).__name__}")
 
 
+def run_terminator_case(c, case):
+    """family-N model simulated by stacked time with the first-order terminal condition: the stacked Jacobian monitor then
+    sees the terminator's Jacobian correction at the Newton iterates"""
+    import irispie as ir
+    from ..workloads import families as F
+    rng = np.random.default_rng(case["seed"])
+    spec, steady, meta = F.family_N(rng, measurement=False)
+    if spec is None:
+        return
+    src = M.render_source(spec, None, 0)["source"]
+    with c.running(dict(case, source=src)):
+        try:
+            with rt.quiet():
+                m = ir.Simultaneous.from_string(src, **spec["flags"])
+                m.assign(**{p["name"]: p["value"] for p in spec["params"]})
+                m.assign(**{n: (lvl, chg) for n, (lvl, chg) in steady.items()})
+                m.solve_steady()
+                m.solve()
+        except Exception as exc:
+            c.inconc(f"terminator-case:steady-or-solve-failed:{type(exc).__name__}")
+            return
+        if not int(m.max_lead):
+            return
+        T = int(rng.integers(2, 7))
+        span = ir.Span(ir.qq(2020, 1), ir.qq(2020, 1) + (T - 1))
+        db = ir.Databox.steady(m, span)
+        sh = spec["tshocks"][0]["name"]
+        db[sh][ir.qq(2020, 1)] = float(rng.normal(0, 0.03))
+        db["ant_" + sh][ir.qq(2020, 1) + (T - 1)] = float(rng.normal(0, 0.03))
+        try:
+            with rt.quiet(), np.errstate(all="ignore"):
+                m.simulate(db, span, method="stacked_time", when_fails="silent", solver_settings={"step_tolerance": float("inf")})
+        except Exception as exc:
+            c.inconc(f"terminator-case:simulate-raised:{type(exc).__name__}")
+
+
 def replay(c, case):
     install()
-    run_case(c, case)
+    if case.get("kind") == "terminator":
+        run_terminator_case(c, case)
+    else:
+        run_case(c, case)
 
 
 def shard(c):
@@ -783,6 +822,13 @@ def shard(c):
         for i, case in enumerate(cases):
             if i % c.nshards == c.shard:
                 run_case(c, case)
+    for i in range(c.scale(12, 400)):
+        if c.out_of_time():
+            break
+        try:
+            run_terminator_case(c, {"kind": "terminator", "seed": int(rng.integers(0, 2 ** 31))})
+        except Exception as exc:
+            c.inconc(f"harness:case-error:{type(exc).__name__}")
     n = c.scale(120, 4000)
     for i in range(n):
         if c.out_of_time():
